@@ -1030,9 +1030,12 @@ def fuse_slice(a, b):
             if isinstance(a[i], Integral) or j == len(b):
                 result.append(a[i])
                 continue
-            while b[j] is None:  # insert any Nones on the rhs
+            while j < len(b) and b[j] is None:  # insert any Nones on the rhs
                 result.append(None)
                 j += 1
+            if j == len(b):  # b ended in Nones; the rest of a passes through
+                result.append(a[i])
+                continue
             result.append(fuse_slice(a[i], b[j]))  # Common case
             j += 1
         while j < len(b):  # anything leftover on the right?
